@@ -4,12 +4,15 @@
    M = BTree/BTree.v (page heap, byte accounting, the code's three binary searches, cursor),
    S = BTree/Spec.v  (list sorted by key, newest first among equal keys).
 
-   The pinned code does NOT satisfy the property: three refutations (witnesses evaluated in
-   the faithful model; the same histories are corpus cases 0, 1, 3 of the harness, where the
-   real code gives the same answers).  The full refinement statement for histories outside
-   the two known classes is kept as C26_full_statement; what is proved of it is listed
-   below (theorems named _partial). *)
-From NDB Require Import Base.Bytes BTree.BTree BTree.Spec BTree.Witness BTree.Leaf_proofs BTree.SingleLeaf_proofs BTree.Delete_proofs BTree.Chain_proofs BTree.Insert_proofs BTree.Inv BTree.Inv_proofs.
+   The pinned code does NOT satisfy the property: refutations for K-C26-dups (witnesses evaluated in
+   the faithful model; the same histories are corpus cases 0, 1 of the harness, where the real code gives
+   the same answers).  Two further defects were repaired in /repo (scan stopping at an emptied leaf,
+   ff9d0a3; median split by cell count overflowing a page, 0fc5a58); their witnesses are regressions
+   (the fixed_ lemmas of BTree/Witness.v).  The refinement statement for histories outside the known classes is
+   C26_full_statement; it is PROVED for every history in which the tree stays within height 2
+   (C26_height2_partial: an internal root over leaves, any number of leaf splits); for deeper trees it
+   is sampled by the correspondence. *)
+From NDB Require Import Base.Bytes BTree.BTree BTree.Spec BTree.Witness BTree.Leaf_proofs BTree.SingleLeaf_proofs BTree.Delete_proofs BTree.Chain_proofs BTree.Insert_proofs BTree.Inv BTree.Inv_proofs BTree.Height2_proofs.
 
 (* ---- the full statement (NOT proved; see the _partial theorems and the manifest) ---- *)
 (* for every history outside the known classes: every operation (insert, delete, lookup, seek+scan,
@@ -36,23 +39,31 @@ Theorem C26_refuted_lookup : C26_refuted_lookup_statement.
 Proof. exact refuted_lookup. Qed.
 Print Assumptions C26_refuted_lookup.
 
-(* K-C26-splitfit: 17 inserts of distinct keys (2 and 900 bytes), nothing deleted; the last insert panics *)
-Definition C26_refuted_insert_statement : Prop :=
-  exists ops, has_dup ops = false /\
-    (forall o, In o ops -> exists k v, o = OInsert k v /\ (length k <= 900)%nat) /\
-    last (snd (run ops)) RUnit = RPanic.
-Theorem C26_refuted_insert : C26_refuted_insert_statement.
-Proof. exact refuted_insert. Qed.
-Print Assumptions C26_refuted_insert.
-
 (* ---- proved for all inputs (parts of C26_full_statement) ---- *)
+
+(* HEIGHT 2: every history outside the known classes (no key is ever stored twice, no operation fails)
+   in which the root is split at most once — the tree is one leaf and then an internal root over leaves,
+   with any number of leaf splits (the new root of the first root split is page first+2; a second root
+   split would allocate a larger root id), deletes that empty leaves, dead bytes, seeks, reopens:
+   every insert, delete, lookup, seek+scan and reopen returns what the sorted multimap returns, and the
+   final full scan is the multimap.  This is C26_full_statement restricted by `st_root <= first + 2`.
+   Proved by induction over the history with a representation invariant over the page heap (leaves in
+   key order = children of the root = sibling chain, separators bound the leaves, pages distinct and
+   below the allocator).  Non-vacuous: BTree/Height2_proofs.v height2_nonvacuous (7 leaves, 6 splits). *)
+Definition C26_height2_partial_statement : Prop :=
+  forall ops, has_dup ops = false -> has_failed_op ops = false ->
+    st_root (fst (run ops)) <= bt_first_data_page + 2 ->
+    snd (run ops) = snd (s_run ops) /\ scan_all (fst (run ops)) = inl (fst (s_run ops)).
+Theorem C26_height2_partial : C26_height2_partial_statement.
+Proof. exact height2_refines. Qed.
+Print Assumptions C26_height2_partial.
 
 (* every history in which no key is ever stored twice and which never allocates a page (the tree stays
    one leaf, any number of operations, any keys, deletes leaving dead bytes): every insert, delete,
    lookup, seek+scan and reopen returns what the sorted multimap returns, and the final full scan is the
    multimap.  Non-vacuous: BTree/SingleLeaf_proofs.v single_leaf_nonvacuous. *)
 Definition C26_single_leaf_partial_statement : Prop :=
-  forall ops, has_dup ops = false -> st_next (fst (run ops)) = bt_first_data_page + 1 ->
+  forall ops, has_dup ops = false -> has_failed_op ops = false -> st_next (fst (run ops)) = bt_first_data_page + 1 ->
     snd (run ops) = snd (s_run ops) /\ scan_all (fst (run ops)) = inl (fst (s_run ops)).
 Theorem C26_single_leaf_partial : C26_single_leaf_partial_statement.
 Proof. exact single_leaf_refines. Qed.
@@ -63,7 +74,7 @@ Print Assumptions C26_single_leaf_partial.
    So inside one leaf K-C26-dups needs a delete; beyond one leaf it needs equal keys around a split.
    Non-vacuous: single_leaf_dups_nonvacuous. *)
 Definition C26_single_leaf_dups_partial_statement : Prop :=
-  forall ops, existsb is_delete ops = false -> st_next (fst (run ops)) = bt_first_data_page + 1 ->
+  forall ops, existsb is_delete ops = false -> has_failed_op ops = false -> st_next (fst (run ops)) = bt_first_data_page + 1 ->
     snd (run ops) = snd (s_run ops) /\ scan_all (fst (run ops)) = inl (fst (s_run ops)).
 Theorem C26_single_leaf_dups_partial : C26_single_leaf_dups_partial_statement.
 Proof. exact single_leaf_dups_no_delete. Qed.
@@ -151,13 +162,15 @@ Theorem C26_leaf_delete_partial : C26_leaf_delete_partial_statement.
 Proof. exact leaf_delete_refines. Qed.
 Print Assumptions C26_leaf_delete_partial.
 
-(* the median split of a full leaf without equal keys: the halves are the multimap's list cut at the
-   median, the right half is not empty, both stay sorted, the separator (first key of the right half) is
-   strictly above every key of the left half and at most every key of the right half *)
+(* the split of a full leaf without equal keys, at the split point the code chooses (closest to the median
+   such that both halves fit a page): the halves are the multimap's list cut there and fit a page, the right
+   half is not empty, both stay sorted, the separator (first key of the right half) is strictly above every
+   key of the left half and at most every key of the right half *)
 Definition C26_leaf_split_partial_statement : Prop :=
-  forall l k v, ssorted l -> has_key k l = false ->
-    let (a, b) := split_leaf_entries l k v in
-    a ++ b = s_insert k v l /\ b <> [] /\ ssorted a /\ ssorted b /\
+  forall l k v mid, ssorted l -> has_key k l = false ->
+    leaf_split_point (leaf_entries l k v) = Some mid ->
+    let a := firstn mid (leaf_entries l k v) in let b := skipn mid (leaf_entries l k v) in
+    a ++ b = s_insert k v l /\ b <> [] /\ ssorted a /\ ssorted b /\ leaf_fits a = true /\ leaf_fits b = true /\
     Forall (fun c : cell => lex_lt (fst c) (fst (hd ([], 0) b))) a /\
     Forall (fun c : cell => lex_cmp (fst (hd ([], 0) b)) (fst c) <> Gt) b.
 Theorem C26_leaf_split_partial : C26_leaf_split_partial_statement.
